@@ -55,7 +55,8 @@ func vfC03Sym(v []any, limit int64) (int64, bool) {
 
 func vfC03Ideal(mem, rsvp, limit int64, prio int) bool {
 	if limit == math.MaxInt64 {
-		return true
+		// "unlimited": no priority scaling, but the total must still be a number the scope can report
+		return mem <= math.MaxInt64-rsvp
 	}
 	thr := new(big.Int).Mul(big.NewInt(limit), big.NewInt(int64(1+prio)))
 	thr.Div(thr, big.NewInt(256))
@@ -119,6 +120,8 @@ func TestVerifC03CheckMemory(t *testing.T) {
 					cls := "checkmemory:granted-beyond-scaled-limit"
 					if want {
 						cls = "checkmemory:spurious-refusal"
+					} else if limit == math.MaxInt64 {
+						cls = "bounds:reserve:unlimited-scope-memory-overflows-int64" // same defect as the end-to-end history below
 					}
 					res.AddMismatch(vfh.Mismatch{Class: cls, What: fmt.Sprintf("checkMemory%v: the statement's rule says granted=%v, the code %v (%v)", pt, want, gr, e),
 						Walk: -1, Step: i, Expected: want, Got: gr, Cfg: pt})
